@@ -24,6 +24,7 @@ JudgeAlpha(L) ==
   ELSE IF \E i \in 1..Len(L.probes) : L.nf[i] # AlphaNf(t, L.probes[i]) THEN "nf_policy_differs_from_spec"
   ELSE IF L.ref_milli > 1000 THEN "alphas_at_Qref_is_not_the_card_value"
   ELSE IF L.run_milli > 1000 THEN "alphas_running_differs_from_card_order_and_scheme"
+  ELSE IF L.modev_milli > 1000 THEN "alphas_running_does_not_follow_the_method_of_the_card"
   ELSE "ok"
 Judge(L) == IF L.kind = "alphas" THEN JudgeAlpha(L) ELSE JudgePred(L)
 VARIABLE l
